@@ -17,6 +17,8 @@ CLAIMED = {
          'Trusted: environment stubs for iterator/HashMap/HashSet/PolicySet::add and uninterpreted Policy getters. Outside: tpe::Evaluator simplification rules, can_error_assuming_well_formed, consistency checks, query_* APIs.', '4 C14'),
  'C20': ('panic-freedom of the cedar-policy-core kernels encoded for C01/C02/C07/C13/C14: every MIR assert / unwrap / expect / unreachable! / explicit panic on a feasible path is a failed obligation',
          'Narrow slice of C20: only the kernels listed in the evidence; parsers, error rendering, JSON/protobuf/FFI entry points and nesting limits are outside. Panics inside stubbed callees are invisible.', '4 C20'),
+ 'C08': ('policy-set edits: add, add_static, add_template, link, unlink, remove_static, remove_template each executed from MIR over abstract maps (SMT arrays over an uninterpreted id sort) from an ARBITRARY state satisfying a 9-conjunct representation invariant: invariant preserved, failed operation changes nothing, successful one changes exactly the named ids (inductive step => histories of any length)',
+         'Trusted: abstract-map model of LinkedHashMap/LinkedHashSet; uninterpreted Policy/Template accessors; preconditions the public API enforces (add takes static policies only, link refuses static templates). Outside: linked policy == substituted static policy (needs the evaluator), merge_policyset, Template::link/check_binding, api.rs wrapper maps.', '4 C08'),
  'C13': ('PartialResponse algebra: decision() agrees with every completion and is None only when completions disagree; must <= determining <= may; definitely_errored / definitely_satisfied; the policy set reauthorize evaluates',
          'Trusted: bucket-granular completion model; HashMap/iterator adaptors as logged terms with real closure bodies. Outside: residual-building arms of the evaluator, partial entity stores.', '4 C13'),
 }
@@ -25,7 +27,6 @@ NA = {
  'C04': 'closure maintenance is loops over HashMap/HashSet of entities; Kani did not finish the 3-node generic harness in 40 min (4-14 GB) and engine M has no model of hash iteration',
  'C05': 'subject is parse(print(ast)); the LALRPOP parser lexes with the regex crate - not a bounded computation either engine can take',
  'C06': 'hand-written structural recursions over Expr/EST/PST trees plus prost; symbolic tree payloads explode, concrete trees give the solver nothing to decide',
- 'C08': 'machinery not built yet (abstract-map inductive step planned, see DESIGN.md section 4)',
  'C09': 'two parsers (LALRPOP + serde_json) and name resolution over HashMaps of parsed names',
  'C10': 'serde_json in both directions',
  'C11': 'machinery not built yet (type-directed conformance per node planned, see DESIGN.md section 4)',
